@@ -156,7 +156,7 @@ def _cmp(op, v, rhs):
 #   ("tag", key, op, rhs) ("tag_exists", key) ("tag_re", key, kind, regex, flags)
 #   ("tag_test", key, fname) ("tag_map", key, fname, op, rhs) ("tags_map", fname, op, rhs)
 #   ("field", key, op, rhs) ("field_exists", key) ("field_test", key, fname, *args)
-#   ("field_map", key, fname, op, rhs)
+#   ("field_map", key, fname, op, rhs) ("fields_map", fname, op, rhs)
 #   ("noop", kind)                            kind in time|meas|tag|field
 # compounds: ("not", q) ("and", a, b) ("or", a, b)
 
@@ -210,6 +210,8 @@ def spec(q, p):
         except Exception:
             return False
         return _cmp(q[3], v, q[4])
+    if k == "fields_map":  # FieldQuery().map(f) op rhs: f sees the whole field set (also an empty one)
+        return _mapped(FUNCS[q[1]], p.fields, q[2], q[3])
     if k in ("field", "field_exists", "field_test", "field_map"):
         if q[1] not in p.fields:
             return False
@@ -301,6 +303,8 @@ def compile_q(q, mk_time):
         return OPS[q[2]](TagQuery().map(FUNCS[q[1]]), q[3])
     if k == "tags_mapkey":
         return OPS[q[3]](TagQuery().map(FUNCS[q[1]])[q[2]], q[4])
+    if k == "fields_map":
+        return OPS[q[2]](FieldQuery().map(FUNCS[q[1]]), q[3])
     if k == "field":
         return OPS[q[2]](FieldQuery()[q[1]], q[3])
     if k == "field_exists":
